@@ -2,6 +2,8 @@
   C11 — JSON output is faithful to the object; sort and minimal only reorder / omit.
 -/
 import Cvss.Model.Json
+import Cvss.Lemmas.Str
+import Cvss.Lemmas.Json
 namespace Cvss.Props.C11
 open Cvss Cvss.Model
 
@@ -15,5 +17,366 @@ def keysDistinct (jk : List (Str × Str)) : Bool :=
 theorem json_keys_distinct :
     keysDistinct Gen.V2.jsonKeys = true ∧ keysDistinct Gen.V3.jsonKeys = true ∧ keysDistinct Gen.V4.jsonKeys = true := by
   decide +kernel
+
+
+/-! ### helper: the three outputs as `header ++ items of the active blocks` -/
+
+section helpers
+
+def d0_2 (o : V2.Obj) : JObj :=
+  [(c!"version", .str c!"2.0"), (c!"vectorString", .str o.vector), (c!"baseScore", .num o.base)]
+
+def blocks2 (o : V2.Obj) (c1 c2 : Bool) : List Block :=
+  [(true, Gen.V2.mandatory, []),
+   (c1, Gen.V2.temporal, [(c!"temporalScore", .num (if truthy o.temporal then o.temporal.getD 0 else 0))]),
+   (c2, Gen.V2.environmental, [(c!"environmentalScore", .num (if truthy o.env then o.env.getD 0 else 0))])]
+
+/-- the keys of the v2 output, as a closed term -/
+def K2 (c1 c2 : Bool) : List Str :=
+  [c!"version", c!"vectorString", c!"baseScore"] ++ activeKeys Gen.V2.jsonKeys
+    [(true, Gen.V2.mandatory, []), (c1, Gen.V2.temporal, [(c!"temporalScore", .num 0)]),
+     (c2, Gen.V2.environmental, [(c!"environmentalScore", .num 0)])]
+
+theorem K2_eq (o : V2.Obj) (c1 c2 : Bool) :
+    keys (d0_2 o) ++ activeKeys Gen.V2.jsonKeys (blocks2 o c1 c2) = K2 c1 c2 := rfl
+
+theorem K2_all (o : V2.Obj) (c1 c2 : Bool) :
+    keys (d0_2 o) ++ (blocks2 o c1 c2).flatMap (blockKeys Gen.V2.jsonKeys) = K2 true true := rfl
+
+theorem K2_nodup : (K2 true true).Nodup := by decide +kernel
+
+theorem truthy_getD (t : Option Rat) : (if truthy t then t.getD 0 else 0) = t.getD 0 := by
+  cases t with
+  | none => simp [truthy]
+  | some x =>
+    by_cases hx : x = 0 <;> simp [truthy, hx]
+
+theorem v2_struct (o : V2.Obj) (sort minimal : Bool) (j : JObj) (h : asJson2 o sort minimal = some j) :
+    ∃ d, j = finish sort d ∧
+      d = d0_2 o ++ (blocks2 o (!minimal || o.temporal.isSome) (!minimal || o.env.isSome)).flatMap
+            (blockItems Gen.V2.jsonKeys (V2.getDescription o.metrics) us2) ∧
+      (keys d).Nodup ∧
+      keys d = K2 (!minimal || o.temporal.isSome) (!minimal || o.env.isSome) ∧
+      GroupDefined Gen.V2.jsonKeys (V2.getDescription o.metrics) us2 Gen.V2.mandatory ∧
+      ((!minimal || o.temporal.isSome) = true →
+        GroupDefined Gen.V2.jsonKeys (V2.getDescription o.metrics) us2 Gen.V2.temporal) ∧
+      ((!minimal || o.env.isSome) = true →
+        GroupDefined Gen.V2.jsonKeys (V2.getDescription o.metrics) us2 Gen.V2.environmental) := by
+  rw [asJson2_eq, Option.bind_eq_some_iff] at h
+  obtain ⟨d, hd, hj⟩ := h
+  simp only [Option.some.injEq] at hj
+  obtain ⟨e1, e2, e3, e4⟩ := runBlocks_struct Gen.V2.jsonKeys (V2.getDescription o.metrics) us2
+    (blocks2 o (!minimal || o.temporal.isSome) (!minimal || o.env.isSome)) (d0_2 o) d
+    (by rw [K2_all]; exact K2_nodup) hd
+  exact ⟨d, hj.symm, e1, e2, by rw [e3, K2_eq], e4 _ (List.Mem.head _) rfl,
+    e4 _ (List.Mem.tail _ (List.Mem.head _)), e4 _ (List.Mem.tail _ (List.Mem.tail _ (List.Mem.head _)))⟩
+
+def d0_3 (o : V3.Obj) : JObj :=
+  [(c!"version", .str (c!"3." ++ natToStr o.minor)), (c!"vectorString", .str o.vector)]
+
+def blocks3 (o : V3.Obj) (c1 c2 : Bool) : List Block :=
+  [(true, Gen.V3.mandatory,
+      [(c!"baseScore", .num o.base), (c!"baseSeverity", .str (us3 (V3.sevOf o.base)))]),
+   (c1, Gen.V3.temporal,
+      [(c!"temporalScore", .num o.temporal), (c!"temporalSeverity", .str (us3 (V3.sevOf o.temporal)))]),
+   (c2, Gen.V3.environmental,
+      [(c!"environmentalScore", .num o.env), (c!"environmentalSeverity", .str (us3 (V3.sevOf o.env)))])]
+
+/-- the keys of the v3 output, as a closed term -/
+def K3 (c1 c2 : Bool) : List Str :=
+  [c!"version", c!"vectorString"] ++ activeKeys Gen.V3.jsonKeys
+    [(true, Gen.V3.mandatory, [(c!"baseScore", .num 0), (c!"baseSeverity", .num 0)]),
+     (c1, Gen.V3.temporal, [(c!"temporalScore", .num 0), (c!"temporalSeverity", .num 0)]),
+     (c2, Gen.V3.environmental, [(c!"environmentalScore", .num 0), (c!"environmentalSeverity", .num 0)])]
+
+theorem K3_eq (o : V3.Obj) (c1 c2 : Bool) :
+    keys (d0_3 o) ++ activeKeys Gen.V3.jsonKeys (blocks3 o c1 c2) = K3 c1 c2 := rfl
+
+theorem K3_all (o : V3.Obj) (c1 c2 : Bool) :
+    keys (d0_3 o) ++ (blocks3 o c1 c2).flatMap (blockKeys Gen.V3.jsonKeys) = K3 true true := rfl
+
+theorem K3_nodup : (K3 true true).Nodup := by decide +kernel
+
+def c3t (o : V3.Obj) (minimal : Bool) : Bool := !minimal || Gen.V3.temporal.any (fun k => hasKey k o.orig)
+def c3e (o : V3.Obj) (minimal : Bool) : Bool := !minimal || Gen.V3.environmental.any (fun k => hasKey k o.orig)
+
+theorem v3_struct (o : V3.Obj) (sort minimal : Bool) (j : JObj) (h : asJson3 o sort minimal = some j) :
+    ∃ d, j = finish sort d ∧
+      d = d0_3 o ++ (blocks3 o (c3t o minimal) (c3e o minimal)).flatMap
+            (blockItems Gen.V3.jsonKeys (V3.getDescription o.metrics) us3) ∧
+      (keys d).Nodup ∧
+      keys d = K3 (c3t o minimal) (c3e o minimal) ∧
+      GroupDefined Gen.V3.jsonKeys (V3.getDescription o.metrics) us3 Gen.V3.mandatory ∧
+      (c3t o minimal = true →
+        GroupDefined Gen.V3.jsonKeys (V3.getDescription o.metrics) us3 Gen.V3.temporal) ∧
+      (c3e o minimal = true →
+        GroupDefined Gen.V3.jsonKeys (V3.getDescription o.metrics) us3 Gen.V3.environmental) := by
+  rw [asJson3_eq, Option.bind_eq_some_iff] at h
+  obtain ⟨d, hd, hj⟩ := h
+  simp only [Option.some.injEq] at hj
+  obtain ⟨e1, e2, e3, e4⟩ := runBlocks_struct Gen.V3.jsonKeys (V3.getDescription o.metrics) us3
+    (blocks3 o (c3t o minimal) (c3e o minimal)) (d0_3 o) d
+    (by rw [K3_all]; exact K3_nodup) hd
+  exact ⟨d, hj.symm, e1, e2, by rw [e3, K3_eq], e4 _ (List.Mem.head _) rfl,
+    e4 _ (List.Mem.tail _ (List.Mem.head _)), e4 _ (List.Mem.tail _ (List.Mem.tail _ (List.Mem.head _)))⟩
+
+def d0_4 (o : V4.Obj) : JObj := [(c!"version", .str c!"4"), (c!"vectorString", .str o.vector)]
+
+def blocks4 (o : V4.Obj) : List Block :=
+  [(true, Gen.V4.metricsOrder, [(c!"baseScore", .num o.base), (c!"baseSeverity", .str o.severity)])]
+
+def K4 : List Str :=
+  [c!"version", c!"vectorString"] ++ activeKeys Gen.V4.jsonKeys
+    [(true, Gen.V4.metricsOrder, [(c!"baseScore", .num 0), (c!"baseSeverity", .num 0)])]
+
+theorem K4_eq (o : V4.Obj) : keys (d0_4 o) ++ activeKeys Gen.V4.jsonKeys (blocks4 o) = K4 := rfl
+
+theorem K4_all (o : V4.Obj) :
+    keys (d0_4 o) ++ (blocks4 o).flatMap (blockKeys Gen.V4.jsonKeys) = K4 := rfl
+
+theorem K4_nodup : K4.Nodup := by decide +kernel
+
+theorem v4_struct (o : V4.Obj) (sort minimal : Bool) (j : JObj) (h : asJson4 o sort minimal = some j) :
+    ∃ d, j = finish sort d ∧
+      d = d0_4 o ++ (blocks4 o).flatMap (blockItems Gen.V4.jsonKeys (V4.getDescription o.metrics) us3) ∧
+      (keys d).Nodup ∧ keys d = K4 ∧
+      GroupDefined Gen.V4.jsonKeys (V4.getDescription o.metrics) us3 Gen.V4.metricsOrder := by
+  rw [asJson4_eq, Option.bind_eq_some_iff] at h
+  obtain ⟨d, hd, hj⟩ := h
+  simp only [Option.some.injEq] at hj
+  obtain ⟨e1, e2, e3, e4⟩ := runBlocks_struct Gen.V4.jsonKeys (V4.getDescription o.metrics) us3
+    (blocks4 o) (d0_4 o) d (by rw [K4_all]; exact K4_nodup) hd
+  exact ⟨d, hj.symm, e1, e2, by rw [e3, K4_eq], e4 _ (List.Mem.head _) rfl⟩
+
+end helpers
+
+/-! ### sort=True changes nothing but the key order, which becomes ascending -/
+
+theorem sortObj_perm (o : JObj) : (sortObj o).Perm o := sortObj_perm' o
+
+/-- ascending: no later key is smaller than an earlier one -/
+theorem sortObj_sorted (o : JObj) : (sortObj o).Pairwise (fun a b => strLt b.1 a.1 = false) :=
+  sortObj_sorted' o
+
+/-- `sort=True` is `sort=False` followed by sorting (so: same items, ascending key order), for every
+    object, both values of `minimal` -/
+theorem asJson_sort (o : AnyObj) (minimal : Bool) :
+    o.asJson true minimal = (o.asJson false minimal).map sortObj := by
+  cases o <;> simp only [AnyObj.asJson, asJson2_eq, asJson3_eq, asJson4_eq] <;>
+    (generalize runBlocks _ _ _ _ _ = x; cases x <;> simp [finish])
+
+/-- the emitted keys are pairwise distinct (so the sorted order is strictly ascending and look-ups in
+    the sorted and unsorted object agree) -/
+theorem asJson_keys_nodup (o : AnyObj) (sort minimal : Bool) (j : JObj) (h : o.asJson sort minimal = some j) :
+    (keys j).Nodup := by
+  cases o with
+  | o2 o =>
+    obtain ⟨d, hj, _, hn, _⟩ := v2_struct o sort minimal j h
+    rw [hj]; exact keys_finish_nodup sort d hn
+  | o3 o =>
+    obtain ⟨d, hj, _, hn, _⟩ := v3_struct o sort minimal j h
+    rw [hj]; exact keys_finish_nodup sort d hn
+  | o4 o =>
+    obtain ⟨d, hj, _, hn, _⟩ := v4_struct o sort minimal j h
+    rw [hj]; exact keys_finish_nodup sort d hn
+
+theorem asJson_sort_lookup (o : AnyObj) (minimal : Bool) (j js : JObj)
+    (h : o.asJson false minimal = some j) (hs : o.asJson true minimal = some js) (k : Str) :
+    lookup k js = lookup k j := by
+  have hn := asJson_keys_nodup o true minimal js hs
+  rw [asJson_sort, h] at hs
+  simp only [Option.map_some, Option.some.injEq] at hs
+  subst hs
+  exact lookup_perm _ _ (sortObj_perm j) hn k
+
+/-! ### the fields are faithful -/
+
+/-- the JSON keys of a group of metrics -/
+def groupKeys (jk : List (Str × Str)) (ms : List Str) : List Str := ms.filterMap (fun m => lookup m jk)
+
+
+theorem groups2 : ∀ m ∈ keys Gen.V2.abbrs,
+    m ∈ Gen.V2.mandatory ∨ m ∈ Gen.V2.temporal ∨ m ∈ Gen.V2.environmental := by decide +kernel
+
+theorem K2_full_mem :
+    (∀ k ∈ K2 true true, k ∈ [c!"version", c!"vectorString", c!"baseScore", c!"temporalScore",
+        c!"environmentalScore"] ++ groupKeys Gen.V2.jsonKeys (keys Gen.V2.abbrs)) ∧
+    (∀ k ∈ [c!"version", c!"vectorString", c!"baseScore", c!"temporalScore",
+        c!"environmentalScore"] ++ groupKeys Gen.V2.jsonKeys (keys Gen.V2.abbrs), k ∈ K2 true true) := by
+  decide +kernel
+
+/-- v2: every field of the full output (`minimal=False`) -/
+theorem asJson2_full (o : V2.Obj) (j : JObj) (h : asJson2 o false false = some j) :
+    lookup c!"version" j = some (.str c!"2.0") ∧ lookup c!"vectorString" j = some (.str o.vector) ∧
+    lookup c!"baseScore" j = some (.num o.base) ∧
+    lookup c!"temporalScore" j = some (.num (o.temporal.getD 0)) ∧
+    lookup c!"environmentalScore" j = some (.num (o.env.getD 0)) ∧
+    (∀ m ∈ keys Gen.V2.abbrs, ∃ key d, lookup m Gen.V2.jsonKeys = some key ∧ V2.getDescription o.metrics m = some d ∧
+        lookup key j = some (.str (us2 d))) ∧
+    (∀ k, k ∈ keys j ↔ k ∈ [c!"version", c!"vectorString", c!"baseScore", c!"temporalScore", c!"environmentalScore"] ++
+        groupKeys Gen.V2.jsonKeys (keys Gen.V2.abbrs)) := by
+  obtain ⟨d, hj, hd, hn, hk, hm, ht, he⟩ := v2_struct o false false j h
+  simp only [finish, Bool.false_eq_true, if_false] at hj
+  subst hj
+  simp only [Bool.not_false, Bool.true_or] at hd hk
+  have ht := ht rfl
+  have he := he rfl
+  simp only [blocks2, truthy_getD, List.flatMap_cons, List.flatMap_nil, blockItems, if_true, d0_2] at hd
+  have L : ∀ k v, (k, v) ∈ j → lookup k j = some v := fun k v => lookup_eq_some_of_mem j hn k v
+  refine ⟨L _ _ (by simp [hd]), L _ _ (by simp [hd]), L _ _ (by simp [hd]), L _ _ (by simp [hd]),
+    L _ _ (by simp [hd]), ?_, ?_⟩
+  · intro m hmem
+    rcases groups2 m hmem with hg | hg | hg
+    · obtain ⟨k, dd, a, b, c⟩ := hm m hg
+      exact ⟨k, dd, a, b, L _ _ (by rw [hd]; simp [c])⟩
+    · obtain ⟨k, dd, a, b, c⟩ := ht m hg
+      exact ⟨k, dd, a, b, L _ _ (by rw [hd]; simp [c])⟩
+    · obtain ⟨k, dd, a, b, c⟩ := he m hg
+      exact ⟨k, dd, a, b, L _ _ (by rw [hd]; simp [c])⟩
+  · intro k
+    rw [hk]
+    exact ⟨K2_full_mem.1 k, K2_full_mem.2 k⟩
+
+theorem K2_min (c1 c2 : Bool) : ∀ k ∈ K2 true true, (k ∈ K2 c1 c2 ↔
+    ¬ ((c1 = false ∧ k ∈ c!"temporalScore" :: groupKeys Gen.V2.jsonKeys Gen.V2.temporal) ∨
+       (c2 = false ∧ k ∈ c!"environmentalScore" :: groupKeys Gen.V2.jsonKeys Gen.V2.environmental))) := by
+  cases c1 <;> cases c2 <;> decide +kernel
+
+/-- v2: `minimal=True` removes exactly the temporal group (its three metric fields and temporalScore) when
+    the temporal score is undefined, exactly the environmental group when the environmental score is
+    undefined, and nothing else; every field that remains is unchanged -/
+theorem asJson2_minimal (o : V2.Obj) (jf jm : JObj) (hf : asJson2 o false false = some jf)
+    (hm : asJson2 o false true = some jm) :
+    (∀ k v, lookup k jm = some v → lookup k jf = some v) ∧
+    (∀ k, k ∈ keys jf → (k ∈ keys jm ↔
+      ¬ ((o.temporal = none ∧ k ∈ c!"temporalScore" :: groupKeys Gen.V2.jsonKeys Gen.V2.temporal) ∨
+         (o.env = none ∧ k ∈ c!"environmentalScore" :: groupKeys Gen.V2.jsonKeys Gen.V2.environmental)))) := by
+  obtain ⟨df, hjf, hdf, hnf, hkf, -, -, -⟩ := v2_struct o false false jf hf
+  obtain ⟨dm, hjm, hdm, hnm, hkm, -, -, -⟩ := v2_struct o false true jm hm
+  simp only [finish, Bool.false_eq_true, if_false] at hjf hjm
+  subst hjf hjm
+  simp only [Bool.not_false, Bool.true_or, Bool.not_true, Bool.false_or] at hdf hkf hdm hkm
+  constructor
+  · intro k v hl
+    apply lookup_eq_some_of_mem jf hnf
+    have hmem := mem_of_lookup_eq_some jm k v hl
+    rw [hdm] at hmem
+    rw [hdf]
+    simp only [blocks2, List.flatMap_cons, List.flatMap_nil, List.mem_append, List.append_nil] at hmem ⊢
+    rcases hmem with h | h | h | h
+    · exact Or.inl h
+    · exact Or.inr (Or.inl h)
+    · exact Or.inr (Or.inr (Or.inl (blockItems_mono _ _ _ _ _ _ _ h)))
+    · exact Or.inr (Or.inr (Or.inr (blockItems_mono _ _ _ _ _ _ _ h)))
+  · intro k hk
+    rw [hkf] at hk
+    rw [hkm, K2_min o.temporal.isSome o.env.isSome k hk, Option.isSome_eq_false_iff,
+      Option.isSome_eq_false_iff, Option.isNone_iff_eq_none, Option.isNone_iff_eq_none]
+
+theorem groups3 : ∀ m ∈ keys Gen.V3.abbrs,
+    m ∈ Gen.V3.mandatory ∨ m ∈ Gen.V3.temporal ∨ m ∈ Gen.V3.environmental := by decide +kernel
+
+/-- v3: every field of the full output -/
+theorem asJson3_full (o : V3.Obj) (j : JObj) (h : asJson3 o false false = some j) :
+    lookup c!"version" j = some (.str (c!"3." ++ natToStr o.minor)) ∧ lookup c!"vectorString" j = some (.str o.vector) ∧
+    lookup c!"baseScore" j = some (.num o.base) ∧ lookup c!"baseSeverity" j = some (.str (us3 (V3.sevOf o.base))) ∧
+    lookup c!"temporalScore" j = some (.num o.temporal) ∧
+    lookup c!"temporalSeverity" j = some (.str (us3 (V3.sevOf o.temporal))) ∧
+    lookup c!"environmentalScore" j = some (.num o.env) ∧
+    lookup c!"environmentalSeverity" j = some (.str (us3 (V3.sevOf o.env))) ∧
+    (∀ m ∈ keys Gen.V3.abbrs, ∃ key d, lookup m Gen.V3.jsonKeys = some key ∧ V3.getDescription o.metrics m = some d ∧
+        lookup key j = some (.str (us3 d))) := by
+  obtain ⟨d, hj, hd, hn, hk, hm, ht, he⟩ := v3_struct o false false j h
+  simp only [finish, Bool.false_eq_true, if_false] at hj
+  subst hj
+  have ht := ht rfl
+  have he := he rfl
+  have c1 : c3t o false = true := rfl
+  have c2 : c3e o false = true := rfl
+  rw [c1, c2] at hd
+  simp only [blocks3, List.flatMap_cons, List.flatMap_nil, blockItems, if_true, d0_3] at hd
+  have L : ∀ k v, (k, v) ∈ j → lookup k j = some v := fun k v => lookup_eq_some_of_mem j hn k v
+  refine ⟨L _ _ (by simp [hd]), L _ _ (by simp [hd]), L _ _ (by simp [hd]), L _ _ (by simp [hd]),
+    L _ _ (by simp [hd]), L _ _ (by simp [hd]), L _ _ (by simp [hd]), L _ _ (by simp [hd]), ?_⟩
+  intro m hmem
+  rcases groups3 m hmem with hg | hg | hg
+  · obtain ⟨k, dd, a, b, c⟩ := hm m hg
+    exact ⟨k, dd, a, b, L _ _ (by rw [hd]; simp [c])⟩
+  · obtain ⟨k, dd, a, b, c⟩ := ht m hg
+    exact ⟨k, dd, a, b, L _ _ (by rw [hd]; simp [c])⟩
+  · obtain ⟨k, dd, a, b, c⟩ := he m hg
+    exact ⟨k, dd, a, b, L _ _ (by rw [hd]; simp [c])⟩
+
+theorem K3_min (c1 c2 : Bool) : ∀ k ∈ K3 true true, (k ∈ K3 c1 c2 ↔
+    ¬ ((c1 = false ∧ k ∈ [c!"temporalScore", c!"temporalSeverity"] ++ groupKeys Gen.V3.jsonKeys Gen.V3.temporal) ∨
+       (c2 = false ∧ k ∈ [c!"environmentalScore", c!"environmentalSeverity"] ++
+          groupKeys Gen.V3.jsonKeys Gen.V3.environmental))) := by
+  cases c1 <;> cases c2 <;> decide +kernel
+
+theorem any_hasKey_eq_false (g : List Str) (orig : MMap) :
+    g.any (fun k => hasKey k orig) = false ↔ ∀ m ∈ g, lookup m orig = none := by
+  simp only [List.any_eq_false, hasKey]
+  constructor
+  · intro h m hm
+    have := h m hm
+    cases hl : lookup m orig with
+    | none => rfl
+    | some v => simp [hl] at this
+  · intro h m hm
+    simp [h m hm]
+
+/-- v3: `minimal=True` removes exactly the temporal group when no temporal metric occurs in the input,
+    exactly the environmental group when no environmental metric occurs in the input, nothing else -/
+theorem asJson3_minimal (o : V3.Obj) (jf jm : JObj) (hf : asJson3 o false false = some jf)
+    (hm : asJson3 o false true = some jm) :
+    (∀ k v, lookup k jm = some v → lookup k jf = some v) ∧
+    (∀ k, k ∈ keys jf → (k ∈ keys jm ↔
+      ¬ (((∀ m ∈ Gen.V3.temporal, lookup m o.orig = none) ∧
+            k ∈ [c!"temporalScore", c!"temporalSeverity"] ++ groupKeys Gen.V3.jsonKeys Gen.V3.temporal) ∨
+         ((∀ m ∈ Gen.V3.environmental, lookup m o.orig = none) ∧
+            k ∈ [c!"environmentalScore", c!"environmentalSeverity"] ++ groupKeys Gen.V3.jsonKeys Gen.V3.environmental)))) := by
+  obtain ⟨df, hjf, hdf, hnf, hkf, -, -, -⟩ := v3_struct o false false jf hf
+  obtain ⟨dm, hjm, hdm, hnm, hkm, -, -, -⟩ := v3_struct o false true jm hm
+  simp only [finish, Bool.false_eq_true, if_false] at hjf hjm
+  subst hjf hjm
+  have c1 : c3t o false = true := rfl
+  have c2 : c3e o false = true := rfl
+  rw [c1, c2] at hdf hkf
+  constructor
+  · intro k v hl
+    apply lookup_eq_some_of_mem jf hnf
+    have hmem := mem_of_lookup_eq_some jm k v hl
+    rw [hdm] at hmem
+    rw [hdf]
+    simp only [blocks3, List.flatMap_cons, List.flatMap_nil, List.mem_append, List.append_nil] at hmem ⊢
+    rcases hmem with h | h | h | h
+    · exact Or.inl h
+    · exact Or.inr (Or.inl h)
+    · exact Or.inr (Or.inr (Or.inl (blockItems_mono _ _ _ _ _ _ _ h)))
+    · exact Or.inr (Or.inr (Or.inr (blockItems_mono _ _ _ _ _ _ _ h)))
+  · intro k hk
+    rw [hkf] at hk
+    have e1 : c3t o true = false ↔ ∀ m ∈ Gen.V3.temporal, lookup m o.orig = none := by
+      rw [← any_hasKey_eq_false]; simp [c3t]
+    have e2 : c3e o true = false ↔ ∀ m ∈ Gen.V3.environmental, lookup m o.orig = none := by
+      rw [← any_hasKey_eq_false]; simp [c3e]
+    rw [hkm, K3_min (c3t o true) (c3e o true) k hk, e1, e2]
+
+/-- v4: every field; `minimal` has no effect -/
+theorem asJson4_full (o : V4.Obj) (sort minimal : Bool) (j : JObj) (h : asJson4 o sort minimal = some j) :
+    lookup c!"vectorString" j = some (.str o.vector) ∧ lookup c!"baseScore" j = some (.num o.base) ∧
+    lookup c!"baseSeverity" j = some (.str o.severity) ∧
+    (∀ m ∈ Gen.V4.metricsOrder, ∃ key d, lookup m Gen.V4.jsonKeys = some key ∧ V4.getDescription o.metrics m = some d ∧
+        lookup key j = some (.str (us3 d))) ∧
+    asJson4 o sort true = asJson4 o sort false := by
+  obtain ⟨d, hj, hd, hn, hk, hm⟩ := v4_struct o sort minimal j h
+  subst hj
+  simp only [blocks4, List.flatMap_cons, List.flatMap_nil, blockItems, if_true, d0_4] at hd
+  have L : ∀ k v, (k, v) ∈ d → lookup k (finish sort d) = some v := fun k v hmem => by
+    rw [lookup_finish sort d hn]; exact lookup_eq_some_of_mem d hn k v hmem
+  refine ⟨L _ _ (by simp [hd]), L _ _ (by simp [hd]), L _ _ (by simp [hd]), ?_, rfl⟩
+  intro m hmem
+  obtain ⟨k, dd, a, b, c⟩ := hm m hmem
+  exact ⟨k, dd, a, b, L _ _ (by rw [hd]; simp [c])⟩
 
 end Cvss.Props.C11
